@@ -13,7 +13,9 @@ EXPLANATION = (
     "re-stamping or by a status-consulting visibility predicate; (R4) RDF operators read through the transaction "
     "buffer; (R5) the MVCC visibility predicates have exactly the decision tables created<=view, deleted>view, own "
     "writes visible unless deleted; (R6) the session passes its (start epoch, tx id) context to the planner and to the "
-    "versioned accessors, and the context of an open transaction is its start epoch. It does not execute any read.")
+    "versioned accessors, and the context of an open transaction is its start epoch; (R7) the session's point lookups and "
+    "neighbour listings reach the store only through versioned accessors; (R8) every context-aware operator consumes its "
+    "(epoch, tx id) in the versioned store calls it makes. It does not execute any read.")
 ASSUMPTIONS = [
     "virtual calls are linked by rapid type analysis from the session entry points (operator types the planners construct)",
     "statistics / cardinality estimation are advisory and exempt from the clock rule (they feed the optimizer only, C09)",
